@@ -168,7 +168,8 @@ func ParseSpecFile(fset *token.FileSet, f *ast.File) (*SpecFile, error) {
 		case "func", "extern":
 			// extern func (r *pkg.T) M(...): contract for a method of a dependency (always trusted)
 			rest = strings.TrimPrefix(rest, "func ")
-			src := "package p\nfunc " + rest
+			// closures are named outer$1: '$' is not a Go identifier character, use a letter while parsing
+			src := "package p\nfunc " + strings.ReplaceAll(rest, "$", "Ξ")
 			fs := token.NewFileSet()
 			pf, err := parser.ParseFile(fs, "c.go", src, 0)
 			if err != nil || len(pf.Decls) != 1 {
@@ -176,7 +177,7 @@ func ParseSpecFile(fset *token.FileSet, f *ast.File) (*SpecFile, error) {
 			}
 			fd := pf.Decls[0].(*ast.FuncDecl)
 			cur = &FuncContract{Decl: fd, DeclText: rest, Loops: map[int]*LoopSpec{}, Line: d.line, File: sf.Path}
-			cur.Key = declKey(fd)
+			cur.Key = strings.ReplaceAll(declKey(fd), "Ξ", "$")
 			if kw == "extern" {
 				cur.Extern = true
 				cur.Trusted = true
